@@ -427,7 +427,7 @@ def case_affine(draw, max_extent=6, coeffs=(1, 1, 2, 2, 3, 4), allow_partition=T
     optional extra plain ranks (batch N in I and O, channel M in F and O, reduction C in I and F).
     returns a case with shape-consistent extents.
     """
-    tmpl = draw(st.sampled_from(["conv1d", "conv1d", "conv1d", "conv2d", "sum3", "subsample", "rename"]))
+    tmpl = draw(st.sampled_from(["conv1d", "conv1d", "conv1d", "conv2d", "sum3", "subsample", "rename", "convneg", "convneg"]))
     ext = {}
     sizes = {}
     e = lambda: draw(st.integers(1, max_extent))  # noqa: E731
@@ -465,6 +465,24 @@ def case_affine(draw, max_extent=6, coeffs=(1, 1, 2, 2, 3, 4), allow_partition=T
         if draw(st.booleans()):
             facs.reverse()
         expr = {"out": ["O", o_idx], "terms": [{"take": None, "factors": facs}]}
+        affine.append(("W", [(cf, v.upper()) for cf, v in terms]))
+        out_affine_rank, follower = "Q", "W"
+    elif tmpl == "convneg":
+        # negative coefficients: O[q] = I[a*q + -b*s (+ -c*v)] * F[s] (* G[v]); accesses below 0 are simply absent
+        a, b = co(), draw(st.sampled_from([1, 1, 2]))
+        ext["Q"], ext["S"] = e(), e()
+        terms = [(a, "q"), (-b, "s")]
+        decl = [["F", ["S"]], ["I", ["W"]], ["O", ["Q"]]]
+        facs = [{"t": "F", "idx": [_ie((1, "s"))]}]
+        if draw(st.booleans()):
+            c = draw(st.sampled_from([1, 2]))
+            ext["V"] = draw(st.integers(1, 3))
+            terms.append((-c, "v"))
+            decl.insert(1, ["G", ["V"]])
+            facs.append({"t": "G", "idx": [_ie((1, "v"))]})
+        ext["W"] = a * (ext["Q"] - 1) + 1
+        facs.insert(draw(st.integers(0, len(facs))), {"t": "I", "idx": [_ie(*terms)]})
+        expr = {"out": ["O", [_ie((1, "q"))]], "terms": [{"take": None, "factors": facs}]}
         affine.append(("W", [(cf, v.upper()) for cf, v in terms]))
         out_affine_rank, follower = "Q", "W"
     elif tmpl == "conv2d":
